@@ -21,3 +21,97 @@ Proof.
       rewrite (E o1 H1), (E o2 H2). reflexivity.
     + intros H x Hx. apply list_eqbN_spec. apply H; [left; reflexivity|right; exact Hx].
 Qed.
+
+(* ---------- canonical renaming: canon p = canon q iff p and q are equal up to a
+   renaming of part ids (same kernel: positions carry equal ids in p exactly
+   when they do in q) ---------- *)
+
+Fixpoint fmap (m : list (N * N)) (next : N) (p : list N) : list (N * N) * N :=
+  match p with
+  | [] => (m, next)
+  | x :: t =>
+    match lookup m x with
+    | Some _ => fmap m next t
+    | None => fmap ((x, next) :: m) (next + 1) t
+    end
+  end.
+
+Definition wf (m : list (N * N)) (next : N) : Prop :=
+  (forall k v, lookup m k = Some v -> (v < next)%N) /\
+  (forall k1 k2 v, lookup m k1 = Some v -> lookup m k2 = Some v -> k1 = k2).
+
+Definition getv (M : list (N * N)) (x : N) : N := match lookup M x with Some v => v | None => 0%N end.
+
+Lemma lookup_cons k v m x :
+  lookup ((k, v) :: m) x = if (k =? x)%N then Some v else lookup m x.
+Proof. reflexivity. Qed.
+
+Lemma fmap_spec : forall p m next, wf m next ->
+  wf (fst (fmap m next p)) (snd (fmap m next p)) /\
+  (forall k v, lookup m k = Some v -> lookup (fst (fmap m next p)) k = Some v) /\
+  (forall x, In x p -> exists v, lookup (fst (fmap m next p)) x = Some v) /\
+  canon_aux m next p = map (getv (fst (fmap m next p))) p.
+Proof.
+  induction p as [|x t IH]; intros m next Hwf; cbn [fmap canon_aux map fst snd].
+  - repeat split; try apply Hwf; auto. intros x [].
+  - destruct (lookup m x) as [v|] eqn:E.
+    + destruct (IH m next Hwf) as [H1 [H2 [H3 H4]]]. repeat split; auto; try apply H1.
+      * intros y [<-|Hy]; [exists v; now apply H2|now apply H3].
+      * unfold getv at 1. rewrite (H2 _ _ E). f_equal. exact H4.
+    + assert (Hwf' : wf ((x, next) :: m) (next + 1)).
+      { destruct Hwf as [Hlt Hinj]. split.
+        - intros k v. rewrite lookup_cons. destruct (N.eqb_spec x k).
+          + intros [= <-]. lia.
+          + intros Hk. specialize (Hlt _ _ Hk). lia.
+        - intros k1 k2 v. rewrite !lookup_cons.
+          destruct (N.eqb_spec x k1), (N.eqb_spec x k2); subst; auto.
+          + intros [= <-] Hk. specialize (Hlt _ _ Hk). lia.
+          + intros Hk [= <-]. specialize (Hlt _ _ Hk). lia.
+          + apply Hinj. }
+      destruct (IH _ _ Hwf') as [H1 [H2 [H3 H4]]].
+      assert (Hx : lookup (fst (fmap ((x, next) :: m) (next + 1) t)) x = Some next).
+      { apply H2. rewrite lookup_cons, N.eqb_refl. reflexivity. }
+      repeat split; auto; try apply H1.
+      * intros k v Hk. apply H2. rewrite lookup_cons. destruct (N.eqb_spec x k); [subst; congruence|exact Hk].
+      * intros y [<-|Hy]; [eauto|now apply H3].
+      * unfold getv at 1. rewrite Hx. f_equal. exact H4.
+Qed.
+
+Lemma nth_opt_map {A B} (f : A -> B) l i :
+  nth_opt (map f l) i = match nth_opt l i with Some x => Some (f x) | None => None end.
+Proof. revert i; induction l as [|x l IH]; intros [|i]; cbn; auto. Qed.
+
+Lemma canon_is_injective_renaming p :
+  exists f : N -> N, canon p = map f p /\ (forall x y, In x p -> In y p -> f x = f y -> x = y).
+Proof.
+  assert (Hwf : wf [] 0) by (split; intros; discriminate).
+  destruct (fmap_spec p [] 0%N Hwf) as [[_ Hinj] [_ [Hdef Hc]]].
+  exists (getv (fst (fmap [] 0%N p))). split; [exact Hc|].
+  intros x y Hx Hy. unfold getv.
+  destruct (Hdef x Hx) as [vx Ex], (Hdef y Hy) as [vy Ey]. rewrite Ex, Ey.
+  intros ->. eapply Hinj; eauto.
+Qed.
+
+(* two outputs with the same canonical form induce the same partition of the
+   index set: positions i, j are in one part of p exactly when they are in one
+   part of q *)
+Theorem canon_same_kernel p q : canon p = canon q ->
+  length p = length q /\
+  forall i j x y x' y', nth_opt p i = Some x -> nth_opt p j = Some y ->
+                        nth_opt q i = Some x' -> nth_opt q j = Some y' ->
+                        (x = y <-> x' = y').
+Proof.
+  intros E.
+  destruct (canon_is_injective_renaming p) as [f [Hf If]].
+  destruct (canon_is_injective_renaming q) as [g [Hg Ig]].
+  rewrite Hf, Hg in E. split.
+  - apply (f_equal (@length N)) in E. now rewrite !map_length in E.
+  - intros i j x y x' y' Hi Hj Hi' Hj'.
+    assert (Ei : f x = g x').
+    { apply (f_equal (fun l => nth_opt l i)) in E. rewrite !nth_opt_map, Hi, Hi' in E. congruence. }
+    assert (Ej : f y = g y').
+    { apply (f_equal (fun l => nth_opt l j)) in E. rewrite !nth_opt_map, Hj, Hj' in E. congruence. }
+    split; intros ->.
+    + apply Ig; [eapply nth_opt_In; eauto|eapply nth_opt_In; eauto|congruence].
+    + apply If; [eapply nth_opt_In; eauto|eapply nth_opt_In; eauto|congruence].
+Qed.
